@@ -19,7 +19,7 @@ import (
 
 func TestC16(t *testing.T) {
 	r := ev.Start("C16", "exploration")
-	r.Rule("(1) every program of exactly L steps over {get a session for partition 0/1/2, use the oldest/newest open handle, close the oldest/newest handle, advance the virtual clock past SessionCacheDuration, close the factory} (partitions introduced in order) is executed against a real factory with session cache size 1-2 and each eviction policy inside a synctest bubble; after every step synctest.Wait quiesces the asynchronous Remove goroutines and every still-held handle must still encrypt and decrypt; two consecutive gets of one partition must return the same *Session; after all handles and the factory are closed the env.close hook must have fired exactly once per session ever handed out and never while the harness's own holder count for that session was > 0 (sessions are mapped to their encryption through the SDK's [newSession] debug line). (2) stress with real goroutines and real millisecond expiry under the race detector, same logical oracle after quiescence. Distinct+non-trivial: programs in which at least two distinct underlying sessions were handed out (an eviction or expiry replaced one).")
+	r.Rule("(1) every program of exactly L steps over {get a session for partition 0/1/2, use the oldest/newest open handle, close the oldest/newest handle, advance the virtual clock past SessionCacheDuration, close the factory} (partitions introduced in order) is executed against a real factory with session cache size 1-2 and each eviction policy inside a synctest bubble; after every step synctest.Wait quiesces the asynchronous Remove goroutines and every still-held handle must still encrypt and decrypt; two consecutive gets of one partition must return the same *Session; after all handles and the factory are closed the env.close hook must have fired exactly once per session ever handed out and never while the harness's own holder count for that session was > 0 (sessions are mapped to their encryption through the SDK's [newSession] debug line). (2) stress with real goroutines and real millisecond expiry under the race detector, same logical oracle after quiescence. (3) get/use/close load against a factory built from the SDK's own parts with every harness monitor removed (the race detector then sees the SDK's synchronisation only). Distinct+non-trivial: programs in which at least two distinct underlying sessions were handed out (an eviction or expiry replaced one).")
 	r.Assume("holder counts are kept by the harness at the client boundary (GetSession return / Close call)")
 	L := ev.Pick(4, 6)
 	policies := ev.Pick([]string{"", "lru"}, []string{"", "lru", "lfu", "slru", "tinylfu"})
@@ -66,6 +66,7 @@ func TestC16(t *testing.T) {
 	largeCachePrograms(t, r)
 	sessionCacheSchedules(r)
 	stressC16(t, r)
+	rawPassesC16(r)
 	r.Finish(t)
 }
 
